@@ -1,3 +1,4 @@
+import HcipyVerif.Lemmas.GridHeap
 import HcipyVerif.Lemmas.GridWeights
 import HcipyVerif.Lemmas.GridPolar
 import Mathlib.Tactic.LinearCombination
@@ -15,7 +16,10 @@ points after every operation of random histories.
 The definitions model the code after the repairs D20, D21, D27, D30.  The behaviour before the
 repairs (`autoWeightsOld`, `Grid.reverseOld`) has proved counterexamples at the end.
 The trigonometric clauses (Cartesian → polar → Cartesian, polar rotation) are stated over `ℝ` with
-the specification functions `toPolar` / `toCart` of `Lemmas/GridPolar.lean`.
+the specification functions `toPolar` / `toCart` of `Lemmas/GridPolar.lean`, **and** on the exact executable
+model `cartToPolar?` / `polarToCart` (direction `(cos θ, sin θ)` instead of `θ`; defined on the points with a
+rational radius), which the driver runs (`aspolar`, `ascart`) and the harness compares with `Grid.as_`;
+`cartToPolar_matches_spec` bridges the two.
 -/
 set_option linter.unusedSimpArgs false
 set_option linter.unusedVariables false
@@ -95,6 +99,37 @@ theorem rot3_isometry (a b d c s x y z : Rat) (hu : a * a + b * b + d * d = 1) (
   linear_combination (-((a * x + b * y + d * z) ^ 2 - (a * a + b * b + d * d) * (x * x + y * y + z * z))) * hcs +
     (-((a * x + b * y + d * z) ^ 2 - (a * a + b * b + d * d) * (x * x + y * y + z * z)) * (1 - c) ^ 2) * hu
 
+/-- **The 3-D matrix is Rodrigues' rotation** about the unit axis `k = (a, b, d)` by the angle with
+cosine `c` and sine `s`: `R p = c·p + s·(k × p) + (1 - c)(k·p)·k`, for *every* point.  This determines
+the matrix entirely (it is a statement about all `p`), and in particular the sense of rotation: the
+`s`-term is `+ k × p` (right-handed about `k`), which neither the identity nor the rotation by the
+opposite angle satisfies. -/
+theorem rot3_rodrigues (a b d c s x y z : Rat) (hu : a * a + b * b + d * d = 1) :
+    linPt (rot3 a b d c s) [x, y, z] =
+      [c * x + s * (b * z - d * y) + (1 - c) * (a * x + b * y + d * z) * a,
+       c * y + s * (d * x - a * z) + (1 - c) * (a * x + b * y + d * z) * b,
+       c * z + s * (a * y - b * x) + (1 - c) * (a * x + b * y + d * z) * d] := by
+  simp only [linPt, rot3, dot, ratSum, List.map_cons, List.map_nil, List.zipWith_cons_cons, List.zipWith_nil_right,
+    List.zipWith_nil_left, List.cons.injEq, and_true]
+  refine ⟨?_, ?_, ?_⟩
+  · linear_combination (-(1 - c) * x) * hu
+  · linear_combination (-(1 - c) * y) * hu
+  · linear_combination (-(1 - c) * z) * hu
+
+/-- **A vector perpendicular to the axis is turned by the angle `(c, s)` in the plane perpendicular
+to the axis, counter-clockwise seen from the tip of the axis**: `R p = c·p + s·(k × p)`.  Together with
+`rot3_axis` this pins the matrix down (the audit's gap: identity / opposite angle are excluded as
+soon as `s ≠ 0` and `p ≠ 0`, see `rot3_perp_sense`). -/
+theorem rot3_perp (a b d c s x y z : Rat) (hu : a * a + b * b + d * d = 1) (hp : a * x + b * y + d * z = 0) :
+    linPt (rot3 a b d c s) [x, y, z] =
+      [c * x + s * (b * z - d * y), c * y + s * (d * x - a * z), c * z + s * (a * y - b * x)] := by
+  rw [rot3_rodrigues a b d c s x y z hu, hp]
+  simp
+
+/-- the quarter turn about the z-axis sends x̂ to ŷ (not to −ŷ): the sense of rotation, concretely -/
+theorem rot3_perp_sense : linPt (rot3 0 0 1 0 1) [1, 0, 0] = [0, 1, 0] ∧ linPt (rot3 0 0 1 0 (-1)) [1, 0, 0] = [0, -1, 0] := by
+  decide +kernel
+
 /-- `PolarGrid.rotate` (repaired): the angular coordinate of every point grows by the angle. -/
 theorem points_polar_rotate (g : Grid) (α : Rat) (h2 : g.coords.ndim = 2) :
     (g.polarRotate α).coords.points = g.coords.points.map (shiftPt [0, α]) :=
@@ -122,6 +157,30 @@ theorem weights_scale (g g' : Grid) (s : ScaleArg) (wl : List Rat) (hc : g.syste
     rw [Grid.getWeights_stored _ hne]
     simp only [Option.map_some, Option.some.injEq, Coords.size_scale _ _ hl, Weights.toList_mul, hw,
       weightFactor_eq_jac]
+
+/-- **`PolarGrid.scale` multiplies every cell weight by `|k|²`** (the Jacobian of `(r, θ) ↦ (k r, θ)`
+in the physical plane), whatever the weights were — explicit, cached, or the scalar 1 a polar grid
+gets when it has none. -/
+theorem weights_scale_polar (g g' : Grid) (k : Rat) (wl : List Rat) (hp : g.system = .polar) (h2 : g.coords.ndim = 2)
+    (h : g.scale (.scalar k) = some g') (hw : g.weightList = some wl) :
+    g'.weightList = some (wl.map (· * absQ k ^ 2)) := by
+  simp only [Grid.scale, hp] at h
+  cases hgw : g.getWeights with
+  | none => simp [hgw] at h
+  | some w =>
+    simp only [hgw, Option.map_some, Option.some.injEq] at h
+    subst h
+    have hne : w.mul (absQ k ^ g.coords.ndim) ≠ .none := by
+      have := Grid.getWeights_ne_none g w hgw
+      cases w <;> simp_all [Weights.mul]
+    simp only [Grid.weightList, hgw, Option.map_some, Option.some.injEq] at hw
+    simp only [Grid.weightList]
+    rw [Grid.getWeights_stored _ hne]
+    simp only [Option.map_some, Option.some.injEq, Coords.size_scale g.coords [k, 1] (by simp [h2]), Weights.toList_mul, hw, h2]
+
+example : ∃ g g' : Grid, g.system = .polar ∧ g.coords.ndim = 2 ∧ g.scale (.scalar (-3 / 2)) = some g' ∧
+    g'.weightList = some [9 / 4, 9 / 4] :=
+  ⟨⟨.polar, .separated [[1, 2], [0]], .none⟩, _, rfl, rfl, rfl, by decide +kernel⟩
 
 /-- **History independence of scaling**: the automatic weights of the scaled coordinates are the
 scaled automatic weights (regular and separated grids), so it does not matter whether the weights
@@ -162,6 +221,31 @@ theorem nonmutating_independent (st : Store) (g g2 : Grid) (j : Nat) (h : j < st
   have hne : st.length ≠ j := by omega
   simp [Store.push, Store.update, List.getElem?_append_left h, List.getElem?_set_ne hne]
 
+/-- **The same clause on the reference model** (`Model/GridHeap.lean`: coordinate and weight arrays in a heap,
+grids holding references, `scale` / `shift` writing through them — a model in which aliasing *can* happen;
+`nonmutating_independent` above is about the value store, where it cannot).  `scaled` / `shifted` =
+copy, then the in-place operation on the copy (`ops`: one array operation per coordinate array and one for
+the weights array).  As long as no array is shared (`Sep`, kept by every operation — C10 `ref_sep_invariant`;
+the harness compares the number of shared arrays of the real grids with the model's after every operation):
+every existing grid, the source included, reads the same coordinates and weights afterwards; the result
+holds the transformed values; a later in-place operation `ops2` on the result changes the result only. -/
+theorem ref_nonmutating_independent (w : RWorld) (hs : w.Sep) (i : Nat) (hi : i < w.objs.length) (ops ops2 : List ArrOp)
+    (hl : ops.length = (w.objs[i]).refs.length) (hl2 : ops2.length = (w.objs[i]).refs.length) :
+    (w.copied i ops).Sep ∧
+    (w.copied i ops).abs = w.abs ++ [List.zipWith (fun op a => op.apply a) ops (w.objs[i].val w.heap)] ∧
+    ((w.copied i ops).inplace w.objs.length ops2).abs =
+      w.abs ++ [List.zipWith (fun op a => op.apply a) ops2 (List.zipWith (fun op a => op.apply a) ops (w.objs[i].val w.heap))] :=
+  ⟨RWorld.Sep_inplace _ (w.Sep_construct hs _) _ _, w.abs_copied hs i hi ops hl, w.abs_copied_inplace hs i hi ops ops2 hl hl2⟩
+
+example : (RWorld.new {} [[1, 2], [3]]).Sep ∧ (0 : Nat) < (RWorld.new {} [[1, 2], [3]]).objs.length := by decide
+
+/-- a `scaled` that shares the weights array with its source (copying the coordinates only): the in-place
+`weights *= |J|` on the result changes the source's weights. -/
+theorem Bad.scaled_shares_weights :
+    let w : RWorld := { heap := [[0, 1], [1, 1], [0, 2], [5, 5]], objs := [⟨[0, 1]⟩, ⟨[2, 1]⟩] }
+    (w.inplace 1 [.mulS 2, .mulS 2]).abs = [[[0, 1], [2, 2]], [[0, 4], [2, 2]]] ∧ ¬ w.Sep := by
+  refine ⟨by decide +kernel, by decide⟩
+
 /-! ## Regular grids: covered area, sub/supersampling, focal grids -/
 
 /-- **The weights of a regular grid sum to the covered area** `Π dims_i·|δ_i|` (either sign of `δ`). -/
@@ -189,6 +273,31 @@ theorem sub_super_id (g : Grid) (a : List RegAxis) (k : List Nat) (hg : g.coords
     | cons y a =>
       simp only [List.zipWith_cons_cons, List.cons.injEq]
       exact ⟨sub_super_axis x (hk x (by simp)) y, ih a (by simpa using hl) (fun z hz => hk z (by simp [hz]))⟩
+
+/-- **`make_uniform_grid(…, has_center=True)` contains its centre** on every axis, for odd and even
+numbers of points alike (any extent, any centre, any number of dimensions). -/
+theorem uniform_has_center (dims : List Nat) (extent center : List Rat) (hl : extent.length = dims.length)
+    (hc : center.length = dims.length) (hn : ∀ n ∈ dims, 1 ≤ n) :
+    center ∈ (makeUniformGrid dims extent center true).coords.points := by
+  simp only [makeUniformGrid, Coords.points]
+  apply tensor_mem
+  induction dims generalizing extent center with
+  | nil =>
+    cases center with
+    | nil => simp
+    | cons _ _ => simp at hc
+  | cons n dims ih =>
+    cases extent with
+    | nil => simp at hl
+    | cons e extent =>
+      cases center with
+      | nil => simp at hc
+      | cons c center =>
+        simp only [List.zip_cons_cons, List.zipWith_cons_cons, List.map_cons, List.forall₂_cons]
+        exact ⟨uniform_center_mem n e c (hn n (by simp)),
+          ih extent center (by simpa using hl) (by simpa using hc) (fun m hm => hn m (by simp [hm]))⟩
+
+example : [(1 / 2 : Rat), -5 / 4] ∈ (makeUniformGrid [4, 5] [1, 5 / 2] [1 / 2, -5 / 4] true).coords.points := by decide +kernel
 
 /-- a regular grid whose axes are `delta·(-n/2 + (n mod 2)/2) + k·delta` contains the origin, for
 odd and for even `n ≥ 1` alike -/
@@ -231,6 +340,68 @@ theorem focal_from_pupil_has_origin (tau s : Rat) (a1 a2 : RegAxis) (q1 q2 fov1 
   refine List.mem_map.mpr ⟨[0, 0], ?_, by simp [scalePt]⟩
   simpa [fftAxis, centredAxis] using this
 
+/-! ## Compositions: the single-step theorems chain
+
+`WF`, the dimension and the kind are preserved by every operation (`Coords.WF_scale/_shift/_reverse/
+_linmap`, `Coords.ndim_*`, `Coords.kind_*` in Lemmas/GridGeom.lean), so the hypotheses of one step are
+available after another. -/
+
+/-- the hypotheses of the single-step theorems survive every operation -/
+theorem wf_preserved (c : Coords) (f b : List Rat) (M : List (List Rat)) (hf : f.length = c.ndim) (hb : b.length = c.ndim)
+    (hM : M ≠ []) (hw : c.WF) :
+    (c.scale f).WF ∧ (c.shift b).WF ∧ c.reverse.WF ∧ (c.linmap M).WF ∧
+    (c.scale f).ndim = c.ndim ∧ (c.shift b).ndim = c.ndim ∧ c.reverse.ndim = c.ndim ∧ (c.linmap M).ndim = M.length :=
+  ⟨Coords.WF_scale c f hf hw, Coords.WF_shift c b hb hw, Coords.WF_reverse c hw, Coords.WF_linmap c M hM,
+    Coords.ndim_scale c f hf, Coords.ndim_shift c b hb, Coords.ndim_reverse c, Coords.ndim_linmap c M⟩
+
+/-- **scale → shift → reverse → rotate** on any well-formed coordinates: the points are the images under
+the composed affine map, listed in the reversed order. -/
+theorem points_scale_shift_reverse_rotate (c : Coords) (f b : List Rat) (M : List (List Rat)) (hf : f.length = c.ndim)
+    (hb : b.length = c.ndim) (hM : M ≠ []) (hw : c.WF) :
+    ((((c.scale f).shift b).reverse).linmap M).points =
+      (c.points.map (linPt M ∘ shiftPt b ∘ scalePt f)).reverse := by
+  have h1 := Coords.WF_scale c f hf hw
+  have h2 := Coords.WF_shift (c.scale f) b (by rw [Coords.ndim_scale c f hf]; exact hb) h1
+  rw [Coords.points_linmap _ M hM, Coords.points_reverse _ h2,
+    Coords.points_shift _ b (by rw [Coords.ndim_scale c f hf]; exact hb), Coords.points_scale c f hf]
+  simp [List.map_reverse, List.map_map]
+
+/-- **The weights of a scaled regular grid sum to the scaled area** `Π dims_i·|δ_i| · Π|f_i|`
+(`regular_weights_sum` composed with `weights_scale`), scalar or per-axis factors of either sign. -/
+theorem regular_weights_sum_scaled (a : List RegAxis) (s : ScaleArg) (g' : Grid)
+    (hl : (s.factors a.length).length = a.length)
+    (h : (Grid.mk .cartesian (.regular a) .none).scale s = some g') :
+    g'.weightList.map ratSum =
+      some (ratProd (a.map fun x => (x.dim : Rat) * absQ x.delta) * jac (s.factors a.length)) := by
+  have h0 := regular_weights_sum a
+  cases hw : (Grid.mk .cartesian (.regular a) .none).weightList with
+  | none => simp [hw] at h0
+  | some wl =>
+    rw [hw] at h0
+    simp only [Option.map_some, Option.some.injEq] at h0
+    have := weights_scale _ g' s wl rfl (by simpa [Coords.ndim] using hl) h hw
+    simp only [Coords.ndim] at this
+    rw [this]
+    simp only [Option.map_some, Option.some.injEq, ratSum_map_mul, h0]
+
+/-- … and reversing afterwards keeps that sum (the weights are only re-ordered). -/
+theorem weights_sum_reverse (g : Grid) : g.reverse.weightList.map ratSum = g.weightList.map ratSum := by
+  rw [weights_reverse]
+  cases g.weightList with
+  | none => rfl
+  | some wl =>
+    simp only [Option.map_some, Option.some.injEq]
+    induction wl with
+    | nil => rfl
+    | cons x xs ih => simp only [List.reverse_cons, ratSum_append, ratSum, ih]; ring
+
+example : ∃ g', (Grid.mk .cartesian (.regular [⟨1 / 2, 3, 0⟩, ⟨-1, 2, 1⟩]) .none).scale (.vector [-2, 3]) = some g' := ⟨_, rfl⟩
+
+/-- the hypotheses of `focal_from_pupil_has_origin` are satisfiable (355/113·2 stands for `2π`) -/
+example : 1 ≤ (fftAxis (710 / 113) ⟨1 / 8, 8, -7 / 16⟩ 2 (3 / 4) 0).dim ∧
+    1 ≤ (fftAxis (710 / 113) ⟨1 / 4, 5, -1 / 2⟩ (3 / 2) 1 0).dim := by decide +kernel
+example : (fftAxis (710 / 113) ⟨1 / 8, 8, -7 / 16⟩ 2 (3 / 4) 0).dim = 12 := by decide +kernel
+
 /-! ## Coordinate-system conversion (over `ℝ`) -/
 
 /-- **Cartesian → polar → Cartesian returns the same point**, for every point including the origin
@@ -261,33 +432,112 @@ theorem polar_scale_is_scaling (r θ k : ℝ) :
   simp only [toCart, Prod.mk.injEq]
   constructor <;> ring
 
-/-! ## Conversion histories: a conversion is a function of the current value -/
+/-! ## The executable conversion model (`cartToPolar?`, `polarToCart`, `Coords.asPolarPts`, `Coords.asCartPts`)
 
-/-- **convert → reverse → convert**: the second conversion lists the converted points in the
-reversed order (point `i` of the reversed grid is point `N-1-i` of the original), whatever was
-converted before. -/
-theorem conversion_after_reverse (φ : List Rat → List Rat) (g : Grid) (h : g.coords.WF) :
-    convPoints φ g.reverse.coords = (convPoints φ g.coords).reverse := by
-  simp [convPoints, Grid.reverse, Coords.points_reverse g.coords h, List.map_reverse]
+The `ℝ` theorems above are about the specification functions.  The statements below are about the
+exact **executable** model of `as_` in Model/Grid.lean, which the driver runs (`aspolar i`, `ascart i …`)
+on the current value of a live grid after every history and which the harness compares with what
+`grid.as_(…)` returns on the real object *with its conversion history* (radius, direction `(cos θ,
+sin θ)` ↔ `θ = arctan2`).  A polar point of the model is `[r, c, s]` with `(c, s)` the direction; the model
+is defined on the points whose radius is rational (Pythagorean directions), where it is exact.
+`cartToPolar_matches_spec` connects the two levels. -/
 
-/-- a conversion after a scale / shift converts the scaled / shifted points -/
-theorem conversion_after_scale_shift (φ : List Rat → List Rat) (c : Coords) (f b : List Rat)
-    (hf : f.length = c.ndim) (hb : b.length = c.ndim) :
-    convPoints φ (c.scale f) = c.points.map (φ ∘ scalePt f) ∧
-    convPoints φ (c.shift b) = c.points.map (φ ∘ shiftPt b) := by
-  simp [convPoints, Coords.points_scale c f hf, Coords.points_shift c b hb, List.map_map]
+/-- **Cartesian → polar → Cartesian returns the same point, exactly** (executable model; every point on
+which the model is defined, origin and negative x-axis included). -/
+theorem as_roundtrip_exact (x y : Rat) (q : List Rat) (h : cartToPolar? [x, y] = some q) : polarToCart q = [x, y] := by
+  obtain ⟨r, c, s, rfl, _, _, _, hx, hy⟩ := cartToPolar?_spec x y q h
+  simp [polarToCart, hx, hy]
 
-/-- equal grids (`==`) convert to the same points: a fresh equal grid is as good as the one with
-a conversion history -/
-theorem conversion_of_equal_grids (φ : List Rat → List Rat) (a b : Grid) (h : a.eq b = true) :
-    convPoints φ a.coords = convPoints φ b.coords := by
-  rw [(Grid.eq_true_imp h).2]
+/-- the converted point: non-negative radius = distance from the origin, direction on the unit circle -/
+theorem as_polar_spec (x y : Rat) (q : List Rat) (h : cartToPolar? [x, y] = some q) :
+    ∃ r c s, q = [r, c, s] ∧ 0 ≤ r ∧ r * r = x * x + y * y ∧ c * c + s * s = 1 ∧ x = r * c ∧ y = r * s :=
+  cartToPolar?_spec x y q h
 
-/-! ## The code before the repairs -/
+/-- **polar → Cartesian → polar** returns the same radius and direction (for `r > 0`; the origin has the
+canonical direction `(1, 0)`, as `arctan2(0, 0) = 0`): the model is defined exactly on the points with a
+rational radius and unit direction. -/
+theorem as_roundtrip_polar (r c s : Rat) (hr : 0 ≤ r) (hcs : c * c + s * s = 1) :
+    cartToPolar? (polarToCart [r, c, s]) = some (if r = 0 then [0, 1, 0] else [r, c, s]) :=
+  cartToPolar?_complete r c s hr hcs
+
+/-- **The executable model computes the specification**: where `cartToPolar?` is defined its radius is
+`hypot(x, y)` and its direction is `(cos θ, sin θ)` of `θ = arctan2(y, x)` (`toPolar`, over `ℝ`). -/
+theorem cartToPolar_matches_spec (x y r c s : Rat) (h : cartToPolar? [x, y] = some [r, c, s]) :
+    (toPolar ((x : ℝ), (y : ℝ))).1 = (r : ℝ) ∧ Real.cos (toPolar ((x : ℝ), (y : ℝ))).2 = (c : ℝ) ∧
+      Real.sin (toPolar ((x : ℝ), (y : ℝ))).2 = (s : ℝ) := cartToPolar?_toPolar x y r c s h
+
+/-- … and `polarToCart` is `toCart` for an angle with that direction. -/
+theorem polarToCart_matches_spec (r c s : Rat) (θ : ℝ) (hc : Real.cos θ = (c : ℝ)) (hs : Real.sin θ = (s : ℝ)) :
+    toCart ((r : ℝ), θ) = (((r * c : Rat) : ℝ), ((r * s : Rat) : ℝ)) ∧ polarToCart [r, c, s] = [r * c, r * s] := by
+  simp [toCart, hc, hs, polarToCart]
+
+example : cartToPolar? [-3 / 2, 2] = some [5 / 2, -3 / 5, 4 / 5] ∧ cartToPolar? [0, 0] = some [0, 1, 0] ∧
+    cartToPolar? [-2, 0] = some [2, -1, 0] ∧ cartToPolar? [1, 1] = none := by decide +kernel
+
+/-- executable analogue of `polar_rotate_is_rotation`: turning the direction `(c, s)` of a polar point by the
+angle with cosine `ca` and sine `sa` rotates the Cartesian point by `rot2 ca sa` -/
+theorem polarToCart_rotate (r c s ca sa : Rat) :
+    polarToCart [r, c * ca - s * sa, s * ca + c * sa] = linPt (rot2 ca sa) (polarToCart [r, c, s]) := by
+  simp [polarToCart, linPt, rot2, dot, ratSum]
+  constructor <;> ring
+
+/-! ### Conversion histories: what a conversion returns after other operations
+
+`Coords.asPolarPts c = c.points.map cartToPolar?` has no state besides the current coordinates — in the
+model that is by construction; that the *code* has no stale cache either is what the tie checks (the
+`aspolar` / `ascart` answers are compared with a fresh `as_()` of a real grid that has been converted,
+reversed, scaled and converted again).  The theorems say what the current value is after each operation. -/
+
+/-- **convert → reverse → convert**: the second conversion lists the converted points in reversed order. -/
+theorem as_after_reverse (g : Grid) (h : g.coords.WF) : g.reverse.coords.asPolarPts = g.coords.asPolarPts.reverse := by
+  simp [Coords.asPolarPts, Grid.reverse, Coords.points_reverse g.coords h, List.map_reverse]
+
+/-- a conversion after a scale / shift / rotation converts the scaled / shifted / rotated points -/
+theorem as_after_scale_shift_rotate (c : Coords) (f b : List Rat) (M : List (List Rat))
+    (hf : f.length = c.ndim) (hb : b.length = c.ndim) (hM : M ≠ []) :
+    (c.scale f).asPolarPts = c.points.map (cartToPolar? ∘ scalePt f) ∧
+    (c.shift b).asPolarPts = c.points.map (cartToPolar? ∘ shiftPt b) ∧
+    (c.linmap M).asPolarPts = c.points.map (cartToPolar? ∘ linPt M) := by
+  simp [Coords.asPolarPts, Coords.points_scale c f hf, Coords.points_shift c b hb, Coords.points_linmap c M hM, List.map_map]
+
+/-- **Scaling commutes with the conversion**: the polar form of the scaled point `(k x, k y)`, `k > 0`,
+is the scaled radius with the same direction — so `PolarGrid.scale(k)` (radius × k, `polar_scale_is_scaling`)
+and `CartesianGrid.scale(k)` agree through `as_`. -/
+theorem as_scale_commutes (x y k r c s : Rat) (hk : 0 < k) (h : cartToPolar? [x, y] = some [r, c, s]) (hr : r ≠ 0) :
+    cartToPolar? [x * k, y * k] = some [r * k, c, s] := by
+  obtain ⟨r', c', s', hq, h0, hsq, hcs, hx, hy⟩ := cartToPolar?_spec x y _ h
+  simp only [List.cons.injEq, and_true] at hq
+  obtain ⟨rfl, rfl, rfl⟩ := hq
+  have := cartToPolar?_complete (r * k) c s (by positivity) hcs
+  have hne : r * k ≠ 0 := mul_ne_zero hr (ne_of_gt hk)
+  simp only [hne, if_false] at this
+  have e1 : x * k = r * k * c := by rw [hx]; ring
+  have e2 : y * k = r * k * s := by rw [hy]; ring
+  rw [e1, e2]; exact this
+
+/-- **polar scale, then convert** = **convert, then Cartesian scale** on the executable model, whatever
+directions the points have. -/
+theorem asCart_after_polar_scale (c : Coords) (k : Rat) (dirs : List (Rat × Rat)) (h2 : c.ndim = 2) :
+    (c.scale [k, 1]).asCartPts dirs = (c.asCartPts dirs).map (scalePt [k, k]) := by
+  simp only [Coords.asCartPts, Coords.points_scale c [k, 1] (by simp [h2]), List.zipWith_map_left, List.map_zipWith]
+  congr 1
+  funext p d
+  cases p with
+  | nil => simp [scalePt, polarToCart]
+  | cons r p => cases p <;> simp [scalePt, polarToCart] <;> constructor <;> ring
+
+/-- equal grids (`==`) convert to the same points: a fresh equal grid is as good as the one with a
+conversion history -/
+theorem as_of_equal_grids (a b : Grid) (h : a.eq b = true) (dirs : List (Rat × Rat)) :
+    a.coords.asPolarPts = b.coords.asPolarPts ∧ a.coords.asCartPts dirs = b.coords.asCartPts dirs := by
+  rw [(Grid.eq_true_imp h).2]; exact ⟨rfl, rfl⟩
+
+/-! ## Old — the code before the repairs (documentation of D21 / D30; code that no longer exists in /repo:
+not evidence for the property) -/
 
 /-- D21: with signed automatic weights a reversed 1-D regular grid gets negative weights — unless the
 weights had been cached before the reversal (history dependence). -/
-theorem weightsOld_history_dependent :
+theorem Old.weights_history_dependent :
     ∃ g g' : Grid, g.materialize = some g' ∧ g.coords = g'.coords ∧
       g.reverseOld.weightListOld = some [-1 / 2, -1 / 2] ∧ g'.reverseOld.weightListOld = some [1 / 2, 1 / 2] :=
   ⟨⟨.cartesian, .regular [⟨1 / 2, 2, 0⟩], .none⟩, ⟨.cartesian, .regular [⟨1 / 2, 2, 0⟩], .scalar (1 / 2)⟩,
@@ -295,7 +545,7 @@ theorem weightsOld_history_dependent :
 
 /-- D30: the old `reverse` left cached per-point weights in the old order, so they no longer belong
 to their points. -/
-theorem reverseOld_misplaces_weights :
+theorem Old.reverse_misplaces_weights :
     ∃ g : Grid, g.reverseOld.weightList ≠ g.weightList.map List.reverse :=
   ⟨⟨.cartesian, .separated [[0, 1, 3]], .array [1, 3 / 2, 2]⟩, by decide +kernel⟩
 
